@@ -1,4 +1,5 @@
 import Anytree.Drv.Iter
+import Anytree.Drv.Forest
 /-!
 Line-protocol driver: one JSON case per input line, one JSON object per output line:
 `{"mirror": <what the model of the code computes>, "spec": <what the specification demands>}`
@@ -10,6 +11,7 @@ def dispatch (j : Json) : R (Json × Json) := do
   let fam ← getStr j "fam"
   match fam with
   | "iter" => runIter j
+  | "forest" => runForest j
   | f => throw s!"unknown family {f}"
 
 def handle (line : String) : String :=
